@@ -9,11 +9,53 @@ use crate::ssim::{CAP_BASE10, CAP_BASE11, CAP_JUNOS};
 
 const CASES: [(&str, &[&str]); 3] = [("base:1.0 only", &[CAP_BASE10, CAP_JUNOS]), ("base:1.0 and base:1.1", &[CAP_BASE10, CAP_BASE11, CAP_JUNOS]), ("base:1.1 only", &[CAP_BASE11, CAP_JUNOS])];
 
+const KINDS: [Kind; 3] = [Kind::Tls, Kind::Local, Kind::Ssh];
+/// framed sizes of the server hello around the transports' initial receive capacity
+const HELLO_SIZES: [usize; 17] = [1018, 1019, 1020, 1021, 1022, 1023, 1024, 1025, 1026, 1027, 1028, 1029, 1030, 2047, 2048, 2049, 2050];
+const DELIVERY_PER_KIND: u64 = 7 + HELLO_SIZES.len() as u64;
+
 pub fn count(_t: Tier) -> u64 {
-    6
+    6 + 3 * DELIVERY_PER_KIND
+}
+
+/// a valid hello of exactly `len` bytes (delimiter included), padded with one long capability URI
+fn hello_of_len(len: usize) -> Vec<u8> {
+    let base = hello_msg(&[CAP_BASE10, CAP_JUNOS, "urn:example:pad:"]).len();
+    let pad = format!("urn:example:pad:{}", "p".repeat(len.saturating_sub(base)));
+    hello_msg(&[CAP_BASE10, CAP_JUNOS, &pad])
+}
+
+/// "established if and only if the hello is valid" also over the real transports: a valid hello is
+/// delivered in two units cut at each position of its delimiter, or in one unit whose size crosses the
+/// receive buffer's capacity; the session must be established and its first request answered.
+fn run_delivery(ctx: &mut Ctx, j: u64) -> Verdict {
+    let kind = KINDS[(j / DELIVERY_PER_KIND) as usize];
+    let k = (j % DELIVERY_PER_KIND) as usize;
+    let replies = vec![crate::rsim::reply_msg(1, 140)];
+    let sc = if k < 7 {
+        let hello = hello_msg(&[CAP_BASE10, CAP_JUNOS]);
+        let d = hello.len() - crate::rsim::MARKER.len();
+        super::c06::segmentation_scenario_with_hello(kind, hello, &[d + k], &replies, &[], format!("valid hello cut at delimiter+{k}"))
+    } else {
+        let n = HELLO_SIZES[k - 7];
+        super::c06::segmentation_scenario_with_hello(kind, hello_of_len(n), &[], &replies, &[], format!("valid hello of {n} bytes in one unit"))
+    };
+    ev!(ctx, "scenario {}/{}", kind.name(), sc.label);
+    let o = run_scenario(ctx, &sc);
+    ev!(ctx, "establish {:?} results {:?} harness {:?}", o.establish, o.results, o.harness_error);
+    ctx.nontrivial = true;
+    ctx.sim_time_ns = o.virt_ns;
+    ctx.count(&format!("runs.hello_delivery.{}", kind.name()));
+    match super::c06::oracle_c06(&sc, &o) {
+        Verdict::Pass => Verdict::Pass,
+        other => other,
+    }
 }
 
 pub fn run_enumerated(ctx: &mut Ctx, i: u64) -> Verdict {
+    if i >= 6 {
+        return run_delivery(ctx, i - 6);
+    }
     let kind = if i < 3 { Kind::Tls } else { Kind::Ssh };
     let (name, caps) = CASES[(i % 3) as usize];
     let server_has_11 = caps.contains(&CAP_BASE11);
@@ -26,6 +68,7 @@ pub fn run_enumerated(ctx: &mut Ctx, i: u64) -> Verdict {
         bad_credentials: false,
         password: crate::rsim::SSH_PASSWORD.to_string(),
         big_request: 0,
+        slow_peer: false,
     };
     ev!(ctx, "scenario {}/{}", kind.name(), sc.label);
     let o = run_scenario(ctx, &sc);
